@@ -140,7 +140,10 @@ where
             let mut shard = shard.write();
             match shard.entry(self.hash(), |p| self.key() == p.key(), |p| p.hash()) {
                 HashTableEntry::Occupied(o) => {
-                    o.remove();
+                    // The key may already map to a newer piece, which must stay until its own reference is dropped.
+                    if Piece::ptr_eq(o.get(), &self.piece) {
+                        o.remove();
+                    }
                 }
                 HashTableEntry::Vacant(_) => {}
             }
